@@ -267,7 +267,6 @@ def exprows_desc(r):
         Cm[0] = np.abs(Cm[0]) + (Cm[0] == 0); Cm[1] = -Cm[0]          # rows of opposite directions need different multipliers
         d.update({'lo': [v.tolist() for v in lo], 'hi': [v.tolist() for v in hi], 'mlo': (mid - w).tolist(), 'mhi': (mid + w).tolist(),
                   'C': Cm.tolist()})
-        d['spell'] = d['spell'] % 2        # entries of a random-coefficient expectation cannot be taken after E() (TypeError at st(): loud)
     else:
         d.update({'zhat': D.rint(r, 1, 4, S).tolist(), 'rhs': [float(v) for v in r.choice([0.5, 1.0, 1.5], k)],
                   'cost': D.rint(r, 1, 3, k).tolist()})
@@ -289,6 +288,9 @@ def exprows_build(d):
         Cm = np.array(d['C'])
         if d['spell'] == 0:
             m.st(E(Cm @ z - x) <= 0)                                   # all rows in one array constraint
+        elif d['spell'] == 2:
+            ex = E(Cm @ z - x)
+            m.st(ex[:1] <= 0, ex[1:].reshape((k - 1, 1)).T[0] <= 0)    # entries / reshaped / transposed parts taken after the expectation
         else:
             for i in range(k):
                 m.st(E(Cm[i] @ z - x[i]) <= 0)                         # row by row
